@@ -36,7 +36,7 @@ def err_canon(e):
 
 
 _PYF = {id(f): n for n, f in L.PYFUNCS.items()}
-ALLOWED_TASK_OPTIONS = {"mode", "executor"}
+ALLOWED_TASK_OPTIONS = {"mode", "executor", "_context_override"}
 
 
 def kws_sx(kwargs):
@@ -94,7 +94,9 @@ def to_sx(v):
         bad = set(v._options) - ALLOWED_TASK_OPTIONS
         if bad:
             raise Unsupported("task options " + repr(sorted(bad)))
-        return "(call %s (%s) %s)" % (s(v.task_name), " ".join(to_sx(a) for a in v.args), kws_sx(v.kwargs))
+        ov = v._options.get("_context_override") or {}
+        return "(call %s (%s) %s%s)" % (s(v.task_name), " ".join(to_sx(a) for a in v.args), kws_sx(v.kwargs),
+                                        (" " + kws_sx(ov)) if ov else "")
     if isinstance(v, SimpleExpression):
         if v.kwargs:
             raise Unsupported("SimpleExpression kwargs")
@@ -144,6 +146,11 @@ def sched_sx(e):
     if n == "redun.join_thread":
         a = sched_args(e, ["thread"], {})
         return "(join %s)" % to_sx(a["thread"])
+    if n == "redun.get_context":
+        a = sched_args(e, ["var_path", "default"], {"default": None})
+        if type(a["var_path"]) is not str:
+            raise Unsupported("get_context of a non-literal path")
+        return "(getctx %s %s)" % (s(a["var_path"]), to_sx(a["default"]))
     if n == "redun.subrun":
         kw = dict(e.kwargs)
         if len(e.args) > 2:
@@ -205,7 +212,13 @@ def from_tree(t):
     if h == "D":
         return {f(k): f(v) for k, v in a}
     if h == "call":
-        return _registry_task(a[0])(*[f(x) for x in a[1]], **{k: f(v) for k, v in a[2]})
+        t = _registry_task(a[0])
+        if len(a) > 3 and a[3]:
+            t = t.update_context({k: f(v) for k, v in a[3]})
+        return t(*[f(x) for x in a[1]], **{k: f(v) for k, v in a[2]})
+    if h == "getctx":
+        from redun import get_context
+        return get_context(a[0], f(a[1]))
     if h == "op":
         return SimpleExpression(a[0], tuple(f(x) for x in a[1:]), {})
     if h == "cond":
@@ -309,6 +322,7 @@ class Gen:
         self.max_fan = max_fan
         self.tagc = 0
         self.feat = {}
+        self.ctx_heavy = False
         self.pool = []          # int-valued sub-expressions generated so far in this program (for sharing)
 
     def f(self, name):
@@ -364,6 +378,38 @@ class Gen:
             self.pool.append(e)
         return e
 
+    def ctx_int(self, d):
+        """an int computed by tasks that read the context (default arguments / body), some with their own update_context"""
+        r = self.rng
+        self.f("context-read")
+        g = self.int if not self.ctx_heavy else (lambda dd: self.ctx_int(dd) if (dd > 0 and r.random() < 0.5) else self.lit())
+        k = r.randrange(6)
+        if k == 0:
+            return self.t("ctx_scale")(g(d - 1))
+        if k == 1:
+            return self.t("ctx_offset")(g(d - 1))
+        if k == 2:
+            self.f("context-inner-override")
+            return self.t("ctx_scale").update_context({r.choice(["k", "m"]): self.lit()})(g(d - 1))
+        if k == 3:
+            return self.t("total")(self.t("ctx_flow")(g(d - 1)))
+        if k == 4:
+            return self.t("first")(self.t("ctx_inner_override")(g(d - 1)))
+        return self.t("ctx_scale")(g(d - 1), m=self.t("ctx_offset")(self.lit()))
+
+    def ctx_program(self, d):
+        r = self.rng
+        k = r.randrange(5)
+        if k == 0:
+            return self.t("ctx_flow")(self.ctx_int(d - 1))
+        if k == 1:
+            return self.t("ctx_body")(self.ctx_int(d - 1))
+        if k == 2:
+            return [self.ctx_int(d - 1), self.t("ctx_inner_override")(self.lit())]
+        if k == 3:
+            return self.t("add")(self.ctx_int(d - 1), b=self.int(d - 1))
+        return self.ctx_int(d)
+
     def shared(self, d):
         """one term used twice under the same parent: as an argument of a call next to another (possibly slower) argument,
         and in a later step of seq / cond / map_ whose earlier step waited on that same term"""
@@ -394,7 +440,7 @@ class Gen:
             return self.err(d)
         if d <= 0:
             return self.lit()
-        k = r.randrange(34)
+        k = r.randrange(35)
         g = self.int
         if k == 0:
             return self.lit()
@@ -512,6 +558,8 @@ class Gen:
         if k == 31:
             self.f("force-delay")
             return force(delay(g(d - 1)))
+        if k == 33:
+            return self.ctx_int(d)
         if k == 32 and self.allow_subrun:
             self.f("subrun")
             return subrun(g(d - 1), executor="default", new_execution=r.random() < 0.5)
